@@ -42,6 +42,11 @@ def entries_for(v):
     out = ["metadata", "default", "captured", "captured_global", "captured_modattr", "captured_clsattr"]
     if v["vt"] in ("str", "int"):
         out.append("metadata_key")
+    # the value as a member of an Enum class mixed with str / int (an instance of a SUBCLASS of the scalar type)
+    if v["vt"] == "str":
+        out.append("captured_strenum")
+    if v["vt"] == "int":
+        out.append("captured_intenum")
     if v["vt"] == "str" or (v["vt"] == "list" and v["items"] and all(x["vt"] == "str" for x in v["items"])):
         out += ["columns_pandas", "columns_awkward", "columns_parquet", "columns_ttree"]
     if v["vt"] in ("str", "bytes", "int", "bigint", "float", "bool", "none"):
